@@ -22,6 +22,8 @@ BackMpos = z3.Function('BackMpos', V, V)
 Bk = z3.Function('Bk', IntS, V)
 MpoE = z3.Function('MpoTensor', IntS, IntS, V)      # (environment, step)
 NENVS = [1]
+CapE = z3.Function('CapOfEnv', IntS, IntS, V)       # (environment, step)
+Outer = z3.Function('outer_product', V, V, V)
 
 
 def pack(mpos):
@@ -160,9 +162,20 @@ def grad_registry():
             g['node0_arg'] = args[0]
             check_flattened(ip, 'initial-state', args[0], g['initial_state'], g['hs_dim'])
             return g['node0']
-        g['target_arg'] = args[0]
-        if g.get('target_source') is not None:
-            check_flattened(ip, 'target-derivative', args[0], g['target_source'], g['hs_dim'])
+        # the node the backward pass starts from: caps of the last step on the bond legs (environment order), the flattened target on
+        # the system leg:  outer(cap_0, outer(cap_1, .. flat(target)))
+        arg, ok_caps = args[0], True
+        for e in range(NENVS[0]):
+            if z3.is_app(arg) and arg.decl().name() == 'outer_product' and z3.eq(arg.arg(0), CapE(e, to_int(g['num_steps']))):
+                arg = arg.arg(1)
+            else:
+                ok_caps = False
+                break
+        ip.prove('grad/backward-start-carries-the-caps', z3.BoolVal(ok_caps), {'node built from': str(args[0])[:300],
+                                                                                'required': 'outer(cap_0(N), outer(cap_1(N), ... flat(target)))'})
+        g['target_arg'] = arg
+        if g.get('target_source') is not None and ok_caps:
+            check_flattened(ip, 'target-derivative', arg, g['target_source'], g['hs_dim'])
         return Target0
 
     @model
@@ -179,6 +192,43 @@ def grad_registry():
     R.lib_models['tensornetwork.replicate_nodes'] = m_replicate
     R.lib_models['tensornetwork.Node'] = m_tn_node
 
+    # caps per environment (the backward pass closes each bond leg with the cap of the last step, like the forward pass)
+    @model
+    def m_get_caps_list(ip, args, kw):
+        pts, step = args
+        ip.log.append(('get_caps', step))
+        if ip.may_raise('_get_caps-raises'):
+            raise PyRaise(ExcVal('ValueError', ('no cap tensor',)))
+        ip.ghost['cd']['caps_step'] = to_int(step)
+        return [CapE(e, to_int(step)) for e in range(NENVS[0])]
+
+    @model
+    def m_apply_caps_list(ip, args, kw):
+        from .dyn import ApplyCaps, CapsF
+        node, edges, caps = args
+        ip.prove('call/_apply_caps/edges-belong-to-node', edges == EdgesF(node))
+        if isinstance(caps, list) and len(caps) == NENVS[0] and caps:
+            # the caps of ONE step, in environment order, are what the forward specification calls CapsAt(step)
+            k = caps[0].arg(1) if z3.is_app(caps[0]) and caps[0].decl().name() == 'CapOfEnv' else None
+            if k is not None and all(z3.is_app(c) and c.decl().name() == 'CapOfEnv' and z3.eq(c.arg(1), k) and z3.eq(c.arg(0), z3.IntVal(e))
+                                     for e, c in enumerate(caps)):
+                return ApplyCaps(node, CapsF(k))
+        if isinstance(caps, list):
+            caps = uf('cap_list', *caps) if caps else CapsF(ip.ghost['cd']['caps_step'])       # no environment: nothing to close
+        return ApplyCaps(node, caps)
+    R.models['system_dynamics._get_caps'] = m_get_caps_list
+    R.models['system_dynamics._apply_caps'] = m_apply_caps_list
+
+    @model
+    def m_outer(ip, args, kw):
+        if not (is_z3(args[0]) and is_z3(args[1])):
+            # arrays of the aliasing model (C20): a fresh array
+            from pyvc import npalias
+            return npalias.intercept(ip, 'numpy.multiply.outer', args, kw)
+        return Outer(args[0], args[1])
+    R.lib_models['numpy.multiply.outer'] = m_outer
+    R.lib_models['numpy.outer'] = m_outer
+
     def matmul(ip, a, b):
         return MatMul(a, b)
     R.matmul = matmul
@@ -192,7 +242,7 @@ def grad_registry():
                 'states': Seq(z3.If(ra, k, 0), lambda j: recorded(j, Xf(j)), 'list'),
                 'forwardprop_derivs_list': Seq(k, lambda j: fwd_stored(j), 'list'),
                 'mpo_list': Seq(k, lambda j: mpos_at(j), 'list')}
-    R.invariants[('gradient.compute_gradient_and_dynamics', 0)] = LoopInv(fwd_template, 'grad-forward-loop')
+    R.invariants[('gradient.compute_gradient_and_dynamics', 'over:range(num_steps+1)')] = LoopInv(fwd_template, 'grad-forward-loop')
 
     def bwd_template(ip, frame, i):
         g = ip.ghost['cd']
@@ -203,7 +253,7 @@ def grad_registry():
         first = Repl(dv(N - 1))
         return {'@facts': [i >= 0, i <= N - 1], 'current_node': Bk(s + 1), 'current_edges': EdgesF(Bk(s + 1)),
                 'combined_deriv_list': Seq(i + 1, lambda j: z3.If(j == 0, first, GetTensor(dv(N - 1 - j))), 'list')}
-    R.invariants[('gradient.compute_gradient_and_dynamics', 2)] = LoopInv(bwd_template, 'grad-backward-loop')
+    R.invariants[('gradient.compute_gradient_and_dynamics', 'over:reversed(range(1,num_steps))')] = LoopInv(bwd_template, 'grad-backward-loop')
     return R
 
 
